@@ -39,7 +39,8 @@ def tree_hash():
     h = hashlib.sha1()
     paths = []
     for root, dirs, files in os.walk(REPO):
-        dirs[:] = sorted(d for d in dirs if not (root == REPO and d in ("_build", ".git")))
+        dirs[:] = sorted(d for d in dirs if not (root == REPO and d in ("_build", ".git", "_build_orig", "seeded",
+                                                                        "scratch")))
         for f in sorted(files):
             if f.endswith("~"):
                 continue
